@@ -448,7 +448,7 @@ def run(rep, tier):
     from .. import quoteeval
     for cfg, san in configs:
         try:
-            quoteeval.clause(get_facts(cfg), rep, tier)
+            quoteeval.clause(get_facts(cfg), rep, tier, exact_reads=san)
         except AnalysisBroken as ex:
             rep.broken.append(str(ex))
     # the shape rules on Quote / DoEscape (named locals src / nb / tmp_src, the tail mask, the vector loop) are decided
